@@ -8,6 +8,7 @@ import (
 	"encoding/json"
 	"encoding/xml"
 	"fmt"
+	"reflect"
 	"sort"
 	"strings"
 	"sync"
@@ -68,10 +69,12 @@ func jsonElem(b []byte) (map[string]any, error) {
 
 func isHexTag(s string, t int) bool { return s == fmt.Sprintf("0x%06X", t) }
 
-func (w *walker) tags() {
+func (w *walker) tags() { w.tagsIn([][2]int{{0x420000, 0x420400}, {0x540000, 0x540100}}) }
+
+func (w *walker) tagsIn(ranges [][2]int) {
 	reg := w.reg
 	names := map[string]int{}
-	for _, rng := range [][2]int{{0x420000, 0x420400}, {0x540000, 0x540100}} {
+	for _, rng := range ranges {
 		for t := rng[0]; t < rng[1]; t++ {
 			name := ttlv.TagString(t)
 			pinned, ok := reg.TagName[t]
@@ -406,6 +409,24 @@ func (w *walker) masks(r *core.Rand) {
 		w.check(i < len(names) && int32(cst) == int32(1)<<i && ttlv.BitmaskStr(cst, "|") == names[i], fmt.Sprintf("C17:mask-constant:StorageStatusMask:%d", i),
 			fmt.Sprintf("exported constant %d of StorageStatusMask is %#x and is written as %q; pinned: bit %d", i, int32(cst), ttlv.BitmaskStr(cst, "|"), i), nil)
 	}
+	// the text of one mask stays what it is while other masks are marshalled
+	{
+		m1, m2, m3 := kmip.CryptographicUsageSign|kmip.CryptographicUsageDeriveKey, kmip.CryptographicUsageEncrypt|kmip.CryptographicUsageWrapKey|kmip.CryptographicUsageExport, kmip.CryptographicUsageMask(-2147483648)|1
+		t1, e1 := m1.MarshalText()
+		t2, e2 := m2.MarshalText()
+		t3, e3 := m3.MarshalText()
+		s1, _ := kmip.StorageStatusOnlineStorage.MarshalText()
+		for k, pair := range []struct {
+			txt  []byte
+			want kmip.CryptographicUsageMask
+		}{{t1, m1}, {t2, m2}, {t3, m3}} {
+			var back kmip.CryptographicUsageMask
+			err := back.UnmarshalText(pair.txt)
+			w.check(e1 == nil && e2 == nil && e3 == nil && err == nil && back == pair.want, fmt.Sprintf("C17:mask-text-kept:%d", k),
+				fmt.Sprintf("the text %q obtained for mask %#x, read after other masks were marshalled, gives %#x (%v)", pair.txt, int32(pair.want), int32(back), err), nil)
+		}
+		_ = s1
+	}
 	for _, mt := range maskTypes() {
 		names := w.reg.Masks[mt.name]
 		w.check(len(names) > 0, "C17:mask-unpinned:"+mt.name, "no pinned flags for "+mt.name, nil)
@@ -558,8 +579,43 @@ func vendorTypeNames(c *core.Ctx, r *core.Rand, i int) {
 				fmt.Sprintf("names %q/%q, one of which belongs to the standard State/ObjectType scope only, are accepted in the vendor scopes as %d/%d", foreign[0], foreign[1], got.State, got.Kind), nil)
 		}
 	}
-	// and the standard scopes are untouched by the vendor registration
+	// a vendor bit mask with reserved positions: names denote their own bits
+	ttlv.RegisterTag("X-AcmePerm", vendor.TagPerm)
+	ttlv.RegisterBitmask[vendor.Perm](vendor.TagPerm, append([]string(nil), vendor.PermNames...)...)
+	for bit, name := range vendor.PermNames {
+		if name == "" {
+			continue
+		}
+		c.Count("vendor_mask_flags", 1)
+		v, err := ttlv.BitmaskByStr(vendor.TagPerm, name)
+		w.check(err == nil && v == int32(1)<<bit, "C17:vendor-mask:"+name, fmt.Sprintf("vendor flag %q, registered at bit %d, denotes %#x (%v)", name, bit, v, err), nil)
+		w.check(ttlv.BitmaskStr(vendor.Perm(int32(1)<<bit), "|") == name, "C17:vendor-mask:"+name, fmt.Sprintf("vendor bit %d is written as %q, registered %q", bit, ttlv.BitmaskStr(vendor.Perm(int32(1)<<bit), "|"), name), nil)
+	}
+	all := vendor.Perm(0x33)
+	for _, f := range []struct {
+		name string
+		m    func(any) []byte
+		u    func([]byte, any) error
+	}{{"xml", ttlv.MarshalXML, ttlv.UnmarshalXML}, {"json", ttlv.MarshalJSON, ttlv.UnmarshalJSON}} {
+		doc := f.m(ttlv.Value{Tag: vendor.TagPerm, Value: int32(all)})
+		_ = doc
+		var back vendor.Perm
+		enc := f.m(all)
+		err := f.u(enc, &back)
+		w.check(err == nil && back == all, "C17:vendor-mask:roundtrip:"+f.name, fmt.Sprintf("vendor mask 0x33 written as %s reads back as %#x (%v)", enc, int32(back), err), nil)
+	}
+	// a vendor structure whose Go type is called like a standard tag, under its own tag: the standard name keeps its number
+	ttlv.RegisterTag("X-AcmeDigest", vendor.TagVendorDigest, reflect.TypeFor[vendor.Digest]())
+	// and the standard scopes and tag names are untouched by the vendor registrations
 	w.enums()
+	w.tagsIn([][2]int{{0x420000, 0x420400}})
+	for name, t := range map[string]int{"Digest": 0x420034, "Name": 0x420053, "X-AcmeDigest": vendor.TagVendorDigest} {
+		var v ttlv.Value
+		err := ttlv.UnmarshalXML([]byte("<"+name+"></"+name+">"), &v)
+		w.check(err == nil && v.Tag == t, "C17:tag-by-name:"+name, fmt.Sprintf("after the vendor registrations the element name %q reads as tag %06X (%v), expected %06X", name, v.Tag, err, t), nil)
+		err = ttlv.UnmarshalJSON([]byte(`{"tag":"`+name+`","value":[]}`), &v)
+		w.check(err == nil && v.Tag == t, "C17:tag-by-name:"+name, fmt.Sprintf("after the vendor registrations the JSON tag %q reads as tag %06X (%v), expected %06X", name, v.Tag, err, t), nil)
+	}
 }
 
 // concurrentNames: names and hex forms are computed by many goroutines at once (unregistered tags, unnamed
@@ -612,7 +668,7 @@ func Spec() *core.Spec {
 			"written and read back by name through XML, JSON, binary and the text form), repeated in 3 fresh processes whose observations are compared; once more in a fresh process after vendor extension values (0x8000000x) were registered for three already registered enumerations; plus every element, enumeration-value and mask-flag name used by the 5318 messages of the shipped OASIS vectors (documents produced elsewhere) resolved through pin and library; " +
 			"vendor enumerations under extension tags whose Go type names equal standard tag names; distinct = distinct registered (scope,name) entries visited",
 		Assumptions: []string{"/verif/ref/registry.json is the pinned KMIP 1.0-1.4 registry (dumped from the pinned tree and reviewed against the specification tables)"},
-		Required:    []string{"checks", "unregistered_numbers", "unknown_names", "mask_values.named-pair", "oasis_names.tag", "oasis_names.enum", "oasis_names.mask", "vendor_extension_values", "vendor_type_name_values", "concurrent_name_lookups"},
+		Required:    []string{"checks", "unregistered_numbers", "unknown_names", "mask_values.named-pair", "oasis_names.tag", "oasis_names.enum", "oasis_names.mask", "vendor_extension_values", "vendor_type_name_values", "concurrent_name_lookups", "vendor_mask_flags"},
 		EvalCounter: "checks",
 		Families: []core.Family{
 			{Name: "walk", Isolated: true, Exhaustive: true, N: func(string) int { return 3 }, Run: func(c *core.Ctx, r *core.Rand, i int) {
